@@ -460,6 +460,7 @@ func streamTimeout(c *Ctx) {
 		connectEncodeProbe(c, d, false)
 		connectEncodeProbe(c, d, true)
 	}
+	timeoutReuseProbes(c)
 	for i := 0; i < 200; i++ {
 		d := time.Duration(r.U64() >> uint(1+r.Intn(50)))
 		if d < 2*time.Millisecond {
@@ -474,4 +475,116 @@ func streamTimeout(c *Ctx) {
 	if _, ok := cap.header["Connect-Timeout-Ms"]; ok {
 		c.Fail("connect-enc-spurious", "client without deadline", "header", "a client without a deadline sent a timeout")
 	}
+}
+
+// deadlineIcpt installs a default deadline on every call, the way a client-side timeout
+// interceptor does.
+type deadlineIcpt struct{ d time.Duration }
+
+func (i deadlineIcpt) WrapUnary(next connect.UnaryFunc) connect.UnaryFunc {
+	return func(ctx context.Context, req connect.AnyRequest) (connect.AnyResponse, error) {
+		ctx, cancel := context.WithTimeout(ctx, i.d)
+		defer cancel()
+		return next(ctx, req)
+	}
+}
+func (i deadlineIcpt) WrapStreamingClient(next connect.StreamingClientFunc) connect.StreamingClientFunc {
+	return func(ctx context.Context, spec connect.Spec) connect.StreamingClientConn {
+		ctx, cancel := context.WithTimeout(ctx, i.d)
+		time.AfterFunc(i.d+5*time.Second, cancel) // the call owns the context; released well after it ended
+		return next(ctx, spec)
+	}
+}
+func (i deadlineIcpt) WrapStreamingHandler(next connect.StreamingHandlerFunc) connect.StreamingHandlerFunc {
+	return next
+}
+
+// timeoutMillis reads the timeout a request carries (ok=false: none or unparsable).
+func timeoutMillis(h http.Header, grpc bool) (vals []string, ms int64, ok bool) {
+	if !grpc {
+		vals = h["Connect-Timeout-Ms"]
+		if len(vals) == 0 {
+			return vals, 0, false
+		}
+		n, err := strconv.ParseInt(vals[0], 10, 64)
+		return vals, n, err == nil
+	}
+	vals = h["Grpc-Timeout"]
+	if len(vals) == 0 {
+		return vals, 0, false
+	}
+	v, good := grpcGrammatical(vals[0])
+	if !good {
+		return vals, 0, false
+	}
+	return vals, new(big.Int).Div(v, big.NewInt(1000000)).Int64(), true
+}
+
+// timeoutReuseProbes (oracle only): the deadline of *this* call is what goes out - also when
+// the Request value was used before with a later deadline, and also when the deadline was
+// installed by a client interceptor rather than by the caller; in every protocol and RPC kind.
+func timeoutReuseProbes(c *Ctx) {
+	for _, proto := range []string{"connect", "grpc", "grpcweb"} {
+		grpc := proto != "connect"
+		// (1) one Request value, two calls, the second with the tighter deadline
+		cap := &captureClient{}
+		cl := connect.NewClient[emptypb.Empty, emptypb.Empty](cap, "http://h/s/m", protoOptsPB(proto)...)
+		req := connect.NewRequest(&emptypb.Empty{})
+		for i, d := range []time.Duration{time.Hour, 5 * time.Second} {
+			ctx, cancel := context.WithTimeout(context.Background(), d)
+			_, _ = cl.CallUnary(ctx, req)
+			cancel()
+			vals, ms, ok := timeoutMillis(cap.header, grpc)
+			c.Count("tmo-reuse")
+			desc := fmt.Sprintf("%s unary call #%d with one reused Request value, deadline %v", proto, i+1, d)
+			if len(vals) != 1 || !ok || ms > d.Milliseconds() {
+				c.Fail("tmo-reuse-extends", desc, fmt.Sprint(vals), "the request must carry exactly one timeout, no longer than this call's deadline")
+			}
+		}
+		// (2) the deadline comes from a client interceptor
+		for _, kind := range []string{"unary", "client", "server", "bidi"} {
+			cap := &captureClient{}
+			opts := append(protoOptsPB(proto), connect.WithInterceptors(deadlineIcpt{2 * time.Second}))
+			cl := connect.NewClient[emptypb.Empty, emptypb.Empty](cap, "http://h/s/m", opts...)
+			ctx := context.Background()
+			switch kind {
+			case "unary":
+				_, _ = cl.CallUnary(ctx, connect.NewRequest(&emptypb.Empty{}))
+			case "client":
+				s := cl.CallClientStream(ctx)
+				_ = s.Send(&emptypb.Empty{})
+				_, _ = s.CloseAndReceive()
+			case "server":
+				if s, err := cl.CallServerStream(ctx, connect.NewRequest(&emptypb.Empty{})); err == nil {
+					for s.Receive() {
+					}
+					_ = s.Close()
+				}
+			default:
+				s := cl.CallBidiStream(ctx)
+				_ = s.Send(&emptypb.Empty{})
+				_ = s.CloseRequest()
+				_, _ = s.Receive()
+				_ = s.CloseResponse()
+			}
+			vals, ms, ok := timeoutMillis(cap.header, grpc)
+			c.Count("tmo-interceptor")
+			desc := fmt.Sprintf("%s %s call whose 2s deadline is installed by a client interceptor", proto, kind)
+			if cap.header == nil {
+				c.Fail("tmo-interceptor-deadline-lost", desc, "no request was made", "the call did not reach the transport")
+			} else if len(vals) != 1 || !ok || ms > 2000 || ms < 1000 {
+				c.Fail("tmo-interceptor-deadline-lost", desc, fmt.Sprint(vals), "the request must carry the deadline the interceptor installed")
+			}
+		}
+	}
+}
+
+func protoOptsPB(proto string) []connect.ClientOption {
+	switch proto {
+	case "grpc":
+		return []connect.ClientOption{connect.WithGRPC()}
+	case "grpcweb":
+		return []connect.ClientOption{connect.WithGRPCWeb()}
+	}
+	return nil
 }
